@@ -1,6 +1,7 @@
 import ast
 import functools
 import inspect
+import re
 from collections.abc import Mapping, MutableMapping
 from typing import (
     TYPE_CHECKING,
@@ -145,9 +146,16 @@ def stateful_eval(
         if _is_stateful_transform(node, env):
             stateful_nodes.append((format_expr(node), cast(ast.Call, node)))
 
+    def restore_alias(match: re.Match) -> str:
+        original = aliases.get(match.group(0), match.group(0))
+        return match.group(0) if original == match.group(0) else f"`{original}`"
+
     # Mutate stateful nodes to pass in state from a shared dictionary.
     for name, node in stateful_nodes:
-        name = name.replace('"', r'\\\\"')
+        # State is keyed by the names used in the formula: the aliases chosen
+        # above depend on what else happens to be in `env`, and distinct names
+        # can share an alias across factors.
+        name = re.sub(r"\b\w+\b", restore_alias, name)
         if name not in state:
             state[name] = {}
         node.keywords.append(
@@ -159,12 +167,12 @@ def stateful_eval(
         node.keywords.append(
             ast.keyword(
                 "_metadata",
-                ast.parse(f'__FORMULAIC_METADATA__.get("{name}")', mode="eval").body,
+                ast.parse(f"__FORMULAIC_METADATA__.get({name!r})", mode="eval").body,
             )
         )
         node.keywords.append(
             ast.keyword(
-                "_state", ast.parse(f'__FORMULAIC_STATE__["{name}"]', mode="eval").body
+                "_state", ast.parse(f"__FORMULAIC_STATE__[{name!r}]", mode="eval").body
             )
         )
         node.keywords.append(
